@@ -329,3 +329,21 @@ theorem resLoop_correct (R0 : ℤ) (fuel : Nat) : ∀ (f g : List Int) (a b s : 
               rw [e1]; exact hstepres
 
 end NTV.Res
+
+namespace NTV.Res
+open NTV.PolyG
+
+/-- C04 (integer routine), partial: whenever every truncated division performed by `resultant_smart`
+is exact (the flag the model carries and the check asserts on every explored case), its value is the
+determinant of the Sylvester matrix — for all non-zero canonical f, g ∈ ℤ[x]. -/
+theorem resultantSmart_exact (f g : List Int) (hf : f ≠ []) (hg : g ≠ []) (hcf : Canon f) (hcg : Canon g)
+    (v : Int) (h : resultantSmartE f g = some (.ok (v, true))) :
+    v = resultant (toPoly f) (toPoly g) := by
+  unfold resultantSmartE at h
+  have h0 : f.isEmpty = false := by cases f <;> simp_all
+  simp only [h0, Bool.false_eq_true, ↓reduceIte] at h
+  apply resLoop_correct (resultant (toPoly f) (toPoly g)) _ f g 1 1 1 true v _ h
+  exact ⟨hcf, hcg, hf, one_ne_zero, one_ne_zero, Or.inl rfl, fun e => absurd e hg,
+    fun _ => by simp, fun _ => ⟨rfl, rfl⟩, fun _ => ⟨rfl, rfl, rfl⟩⟩
+
+end NTV.Res
